@@ -1,10 +1,12 @@
 """C17 DRBGs: DrbgObj/PrngObj instances (MC_C17, MC_C17prng) -> replay on drbg.{Hash,Hmac,Ctr}Drbg and the
-DrbgPrng reader; recorded histories on real objects -> Trace_Drbg.
+DrbgPrng reader; recorded histories on real objects -> Trace_Drbg; KAT_HMAC / KAT_Drbg pin the definitions
+(HMAC-SM3 published values; NIST CAVP Hash/HMAC/CTR_DRBG vectors on the same generic operators with SHA-256/AES).
 
-Instances (per mechanism x mode; SM3 / HMAC-SM3 / SM4 with exact bytes):
+Instances (per mechanism x mode x primitive; exact bytes for SM3, HMAC-SM3, SM4 - NIST and GM/T 0105 modes - and
+for SHA-256, HMAC-SHA-256, AES-128/192/256 in NIST mode):
   cover   transition cover: every op of a rich alphabet (sizes at the block seams, additional input,
           reseeds, failing calls) in every context (reseed_counter 1..interval+1, last k ops)
-  sizes   request sizes 0..max+1 (NIST: 2048 / 2049 bytes), each followed by every other
+  sizes   request sizes 0..max+1 (NIST: 2048 / 2049 bytes), each followed by further requests
   lens    instantiate with entropy / nonce / personalisation lengths incl. below-minimum, then a probe
   reach   (thorough) every op sequence over {Generate, Generate+additional, Reseed} of length <= 11 (HMAC: 9)
           that still runs into the reseed gate and sees the refusal
@@ -17,7 +19,9 @@ Instances (per mechanism x mode; SM3 / HMAC-SM3 / SM4 with exact bytes):
           Read sizes across the per-request maximum
 """
 import concurrent.futures
+import json
 import os
+import time
 from .. import core, cfgs
 
 S = core.tla_set
@@ -37,8 +41,10 @@ def G(n, a=0):
 
 R = G
 
-COMBOS = [("hash", False), ("hash", True), ("ctr", False), ("ctr", True), ("hmac", False)]
-ALG = {"hash": "sm3", "hmac": "sm3", "ctr": "sm4"}
+# (mechanism, GM mode, primitive)
+SM = [("hash", False, "sm3"), ("hash", True, "sm3"), ("ctr", False, "sm4"), ("ctr", True, "sm4"), ("hmac", False, "sm3")]
+NISTP = [("hash", False, "sha256"), ("hmac", False, "sha256"), ("ctr", False, "aes128"), ("ctr", False, "aes192"), ("ctr", False, "aes256")]
+ENV = SM + [("hmac", True, "sm3")]
 ENV_ALGS = {("hash", False): ["sm3", "sha256", "sha512"], ("hash", True): ["sm3"],
             ("hmac", False): ["sm3", "sha256", "sha512"], ("hmac", True): ["sm3"],
             ("ctr", False): ["sm4", "aes128", "aes192", "aes256"], ("ctr", True): ["sm4"]}
@@ -52,23 +58,20 @@ def maxreq(mech, gm):
     return blk(mech) if gm else 2048
 
 
-def name_of(mech, gm):
-    return "%s_%s" % (mech, "gm" if gm else "nist")
+def name_of(mech, gm, alg):
+    return "%s_%s%s" % (mech, "gm" if gm else "nist", "" if alg in ("sm3", "sm4") else "_" + alg)
 
 
-def alphabets(mech, gm, tier):
+def alphabets(mech, gm, small):
     """cover alphabet: generate shapes, reseed shapes (incl. failing ones)"""
     b = blk(mech)
     if gm:
-        gens = [G(0), G(1), G(b - 1, 5), G(b), G(b, 2 * b + 1), G(b + 1)]
-        res = [R(32), R(48, 9), R(31)]
-    elif mech == "hmac":
-        gens = [G(0), G(32), G(33, 5)] if tier == "quick" else [G(0), G(1), G(32), G(33, 5), G(65, 70)]
-        res = [R(32), R(48, 9)] if tier == "quick" else [R(32), R(48, 9), R(0)]
-    else:
-        gens = [G(0), G(b), G(b + 1, 5), G(2 * b + 1, 70), G(2049)] if tier == "quick" else [G(0), G(1), G(b), G(b + 1, 5), G(2 * b + 1, 70), G(2049)]
-        res = [R(32), R(48, 9), R(0)] if tier == "quick" else [R(32), R(48, 9), R(1), R(0)]
-    return gens, res
+        return [G(0), G(1), G(b - 1, 5), G(b), G(b, 2 * b + 1), G(b + 1)], [R(32), R(48, 9), R(31)]
+    if mech == "hmac":
+        return ([G(0), G(32), G(33, 5)], [R(32), R(48, 9)]) if small else ([G(0), G(1), G(32), G(33, 5), G(65, 70)], [R(32), R(48, 9), R(0)])
+    if small:
+        return [G(0), G(b), G(b + 1, 5), G(2 * b + 1, 70), G(2049)], [R(32), R(48, 9), R(0)]
+    return [G(0), G(1), G(b), G(b + 1, 5), G(2 * b + 1, 70), G(2049)], [R(32), R(48, 9), R(1), R(0)]
 
 
 def run(ctx):
@@ -77,105 +80,110 @@ def run(ctx):
     base = dict(Seed=ctx.seed, Interval=8, TimeLimit=6000, TickOps=S([]), ScriptName='"none"', LeavesOnly="FALSE", Reach="FALSE")
     jobs, files = [], {"exact": [], "env": [], "tick": [], "prng": []}
 
-    def mc(kind, group, mech, gm, workers, **kw):
-        nm = "%s_%s" % (kind, name_of(mech, gm))
+    def mc(kind, group, combo, workers, prio, exact=True, algs=None, **kw):
+        mech, gm, alg = combo
+        nm = "%s_%s" % (kind, name_of(*combo))
         o = os.path.join(sc, "c17-%s.ndjson" % nm)
         files[group].append(o)
-        consts = dict(base, Exact="TRUE", Mech='"%s"' % mech, Gm="TRUE" if gm else "FALSE", Algs=q([ALG[mech]]), OutFile=core.tla_str(o))
+        consts = dict(base, Exact="TRUE" if exact else "FALSE", Mech='"%s"' % mech, Gm="TRUE" if gm else "FALSE", Algs=q(algs or [alg]),
+                      OutFile=core.tla_str(o))
         consts.update(kw)
-        jobs.append(dict(module="MC_C17", name="MC_C17_" + nm, view="View", workers=workers, timeout=3300, heap="3g", constants=consts,
+        jobs.append(dict(prio=prio, module="MC_C17", name="MC_C17_" + nm, view="View", workers=workers, timeout=3300, heap="3g", constants=consts,
                          invariants=("TypeOK", "CounterBound", "LenChecks", "OutLenOK"),
                          properties=("RefusalPure", "GateExact", "ReseedRestores"), constraint="CanReach"))
 
+    def script(kind, group, combo, sname, n, prio=5):
+        mc(kind, group, combo, 1, prio, InstOps=S([]), GenOps=S([]), ReseedOps=S([]), ScriptName='"%s"' % sname, MaxOps=n, Window=99, LeavesOnly="TRUE")
+
     std = S([I(32, 16, 0)])
-    for mech, gm in COMBOS:
-        gens, res = alphabets(mech, gm, ctx.tier)
+    for combo in SM + NISTP:
+        mech, gm, alg = combo
+        sm = alg in ("sm3", "sm4")
         b = blk(mech)
-        # transition cover (Window = last k ops)
-        w = (0 if mech == "hmac" else 1) if quick else (1 if mech == "hmac" else 2)
-        mc("cover", "exact", mech, gm, 3 if mech != "ctr" else 2, InstOps=std, GenOps=S(gens), ReseedOps=S(res), MaxOps=99, Window=w)
+        heavy = mech == "hmac" or alg == "sha256"          # TLC cost per op: HMAC ~ 3x Hash; SHA-256 combos are second-line
+        # transition cover: Window = number of preceding ops that are part of the context
+        if quick:
+            w = 0 if (heavy or alg in ("aes128", "aes256")) else 1
+        else:
+            w = (1 if mech == "hmac" else 2) if sm else (0 if alg == "sha256" and mech == "hmac" else 1)
+        gens, res = alphabets(mech, gm, quick or not sm)
+        mc("cover", "exact", combo, 3 if mech != "ctr" else 2, 1, InstOps=std, GenOps=S(gens), ReseedOps=S(res), MaxOps=99, Window=w)
         # request sizes across the per-request maximum (GM maxima are one block: already in the cover alphabet)
-        if not gm and quick:
-            sn = "sizes2" if mech == "hmac" else "sizes"      # HMAC: 2048 bytes = 64 HMACs; the long script is in the thorough tier
-            mc("sizes", "exact", mech, gm, 1, InstOps=S([]), GenOps=S([]), ReseedOps=S([]), ScriptName='"%s"' % sn, MaxOps=4 if mech == "hmac" else 10,
-               Window=99, LeavesOnly="TRUE")
-        elif not gm:
-            sizes = [G(0), G(b + 1, 7), G(2048), G(2049, 7)] if mech == "hmac" else \
-                    [G(0), G(1), G(b - 1), G(b), G(b + 1), G(2047, 7), G(2048), G(2048, 7), G(2049), G(2049, 7)]
-            mc("sizes", "exact", mech, gm, 3, InstOps=std, GenOps=S(sizes), ReseedOps=S([]), MaxOps=3, Window=1)
-            mc("sizescript", "exact", mech, gm, 1, InstOps=S([]), GenOps=S([]), ReseedOps=S([]), ScriptName='"sizes"', MaxOps=10, Window=99, LeavesOnly="TRUE")
+        if not gm:
+            if quick:
+                if sm or alg == "aes192":
+                    script("sizes", "exact", combo, "sizes2" if mech == "hmac" else "sizes", 4 if mech == "hmac" else 10, prio=3)
+            else:
+                if sm:
+                    sizes = [G(0), G(b + 1, 7), G(2048), G(2049, 7)] if mech == "hmac" else \
+                            [G(0), G(1), G(b - 1), G(b), G(b + 1), G(2047, 7), G(2048), G(2048, 7), G(2049), G(2049, 7)]
+                    mc("sizes", "exact", combo, 3, 3, InstOps=std, GenOps=S(sizes), ReseedOps=S([]), MaxOps=3, Window=1)
+                script("sizescript", "exact", combo, "sizes", 10, prio=3)
         # instantiation lengths incl. below-minimum
         if gm:
             insts = [I(31, 16, 0), I(32, 15, 0), I(0, 16, 0), I(32, 0, 0), I(32, 16, 0), I(33, 17, 5), I(64, 32, 64), I(48, 16, 1)]
         else:
             insts = [I(0, 16, 0), I(32, 0, 0), I(1, 1, 0), I(16, 8, 0), I(32, 16, 1), I(55, 17, 64), I(56, 16, 0), I(64, 16, 55), I(14, 7, 0)]
-        mc("lens", "exact", mech, gm, 2, InstOps=S(insts), GenOps=S([G(b), G(b, 3)]), ReseedOps=S([R(32, 1)]), MaxOps=3, Window=1)
-        if not quick:
-            mc("reach", "exact", mech, gm, 4, InstOps=std, GenOps=S([G(b), G(b, 5)]), ReseedOps=S([R(32)]), MaxOps=10 if mech == "hmac" else 12,
+        if sm or not quick or alg in ("aes192", "aes256"):
+            mc("lens", "exact", combo, 2, 4, InstOps=S(insts), GenOps=S([G(b), G(b, 3)]), ReseedOps=S([R(32, 1)]), MaxOps=3, Window=1)
+        if not quick and (sm or alg == "aes192"):
+            mc("reach", "exact", combo, 4, 0, InstOps=std, GenOps=S([G(b), G(b, 5)]), ReseedOps=S([R(32)]), MaxOps=10 if mech == "hmac" else 12,
                Window=99, Reach="TRUE")
     # GM/T 0105 time rule (and its absence in NIST mode): one scripted scenario each, replayed once (passes = 1)
-    for mech, gm in COMBOS + [("hmac", True)]:
-        nm = "tick_" + name_of(mech, gm)
-        o = os.path.join(sc, "c17-%s.ndjson" % nm)
-        files["tick"].append(o)
-        jobs.append(dict(module="MC_C17", name="MC_C17_" + nm, view="View", workers=1, timeout=900, heap="2g",
-                         constants=dict(base, Exact="TRUE", Mech='"%s"' % mech, Gm="TRUE" if gm else "FALSE", Algs=q([ALG[mech]]), OutFile=core.tla_str(o),
-                                        InstOps=S([]), GenOps=S([]), ReseedOps=S([]), ScriptName='"tick"', MaxOps=8, Window=99, LeavesOnly="TRUE"),
-                         invariants=("TypeOK", "CounterBound", "LenChecks"), properties=("RefusalPure", "GateExact", "ReseedRestores")))
+    for combo in ENV:
+        script("tick", "tick", combo, "tick", 8)
     # envelope only: every op sequence; SHA-2 / AES instantiations run the same traces
-    for mech, gm in COMBOS + [("hmac", True)]:
+    for combo in ENV:
+        mech, gm, alg = combo
         b = blk(mech)
         big = G(b + 1) if gm and mech != "hmac" else (G(2049) if mech != "hmac" else None)
         bad = R(31) if gm else R(0)
         for kind, gens, res, depth in (("tree", [G(b), G(b, 5)], [R(32)], 10 if quick else 11),
                                        ("etree", [G(b), G(b, 5)] + ([big] if big else []), [R(32), bad], 7)):
-            nm = "%s_%s" % (kind, name_of(mech, gm))
-            o = os.path.join(sc, "c17-%s.ndjson" % nm)
-            files["env"].append(o)
-            jobs.append(dict(module="MC_C17", name="MC_C17_" + nm, view="View", workers=2, timeout=3300, heap="3g",
-                             constants=dict(base, Exact="FALSE", Mech='"%s"' % mech, Gm="TRUE" if gm else "FALSE", Algs=q(ENV_ALGS[(mech, gm)]),
-                                            OutFile=core.tla_str(o), InstOps=std, GenOps=S(gens), ReseedOps=S(res), MaxOps=depth, Window=99, LeavesOnly="TRUE"),
-                             invariants=("TypeOK", "CounterBound", "LenChecks"), properties=("RefusalPure", "GateExact", "ReseedRestores")))
+            mc(kind, "env", combo, 2, 6, exact=False, algs=ENV_ALGS[(mech, gm)], InstOps=std, GenOps=S(gens), ReseedOps=S(res), MaxOps=depth,
+               Window=99, LeavesOnly="TRUE")
     # reader wrapper: the environment may make any source read of any call misbehave (short / error / empty)
     pbase = dict(Seed=ctx.seed, Interval=8, TimeLimit=6000, LeavesOnly="FALSE", FaultKinds=S([1, 2, 3]), SrcCap=4)
 
-    def prng(kind, mech, gm, workers, exact=True, algs=None, **kw):
-        nm = "prng%s_%s" % (kind, name_of(mech, gm))
+    def prng(kind, combo, workers, prio, exact=True, algs=None, **kw):
+        mech, gm, alg = combo
+        nm = "prng%s_%s" % (kind, name_of(*combo))
         o = os.path.join(sc, "c17-%s.ndjson" % nm)
         files["prng"].append(o)
         consts = dict(pbase, Exact="TRUE" if exact else "FALSE", Mech='"%s"' % mech, Gm="TRUE" if gm else "FALSE",
-                      Algs=q(algs or [ALG[mech]]), OutFile=core.tla_str(o))
+                      Algs=q(algs or [alg]), OutFile=core.tla_str(o))
         consts.update(kw)
-        jobs.append(dict(module="MC_C17prng", name="MC_C17" + nm, view="View", workers=workers, timeout=3300, heap="3g", constants=consts,
+        jobs.append(dict(prio=prio, module="MC_C17prng", name="MC_C17" + nm, view="View", workers=workers, timeout=3300, heap="3g", constants=consts,
                          invariants=("TypeOK", "PCounterBound", "LenChecks", "ReadExact"), properties=("SourceFaultReported", "OnlySourceFaults")))
 
-    for mech, gm in COMBOS:
+    for combo in SM + ([] if quick else [("ctr", False, "aes256"), ("hash", False, "sha256")]):
+        mech, gm, alg = combo
         m = maxreq(mech, gm)
         if not (quick and mech == "hmac"):      # the wrapper is generic over the DRBG interface; HMAC bytes through it: thorough tier
             if gm:
                 # one Read chains many one-block requests: 9*m+5 crosses a reseed inside a single call
-                prng("f", mech, gm, 4, NewOps=S([32000, 16000] if quick else [32000, 16000, 32005]),
+                prng("f", combo, 4, 2, NewOps=S([32000, 16000] if quick else [32000, 16000, 32005]),
                      ReadOps=S([0, m + 1, 9 * m + 5] if quick else [0, 1, m, m + 1, 9 * m + 5]), MaxOps=99, Window=1,
                      FaultKinds=S([1, 2] if quick else [1, 2, 3]), SrcCap=3 if quick else 4)
             else:
                 # small reads: one request each, the 9th needs a reseed (fault at the constructor reads and at every reseed read)
-                prng("f", mech, gm, 3, NewOps=S([32000, 14005] if quick else [32000, 14000, 17005]), ReadOps=S([0, 33] if quick else [0, 1, 33]),
+                prng("f", combo, 3, 2, NewOps=S([32000, 14005] if quick else [32000, 14000, 17005]), ReadOps=S([0, 33] if quick else [0, 1, 33]),
                      MaxOps=99, Window=1, FaultKinds=S([1, 2] if quick else [1, 2, 3]), SrcCap=3 if quick else 4)
                 # Read sizes across the per-request maximum
-                big = [0, 1, m - 1, m, m + 1] + ([3 * m + 5] if (not quick or mech == "ctr") else [])
-                prng("s", mech, gm, 2, FaultKinds=S([]), NewOps=S([32000]), ReadOps=S(big), MaxOps=2 if quick else 3, Window=1)
+                if alg in ("sm3", "sm4"):
+                    big = [0, 1, m - 1, m, m + 1] + ([3 * m + 5] if (not quick or mech == "ctr") else [])
+                    prng("s", combo, 2, 3, FaultKinds=S([]), NewOps=S([32000]), ReadOps=S(big), MaxOps=2 if quick else 3, Window=1)
+    for combo in SM:
+        mech, gm, alg = combo
+        m = maxreq(mech, gm)
         # envelope only, all instantiations: every Read sequence to a fixed depth under every fault choice
-        prng("e", mech, gm, 2, exact=False, algs=ENV_ALGS[(mech, gm)], FaultKinds=S([1, 2]), NewOps=S([32000, 24000]),
+        prng("e", combo, 2, 6, exact=False, algs=ENV_ALGS[(mech, gm)], FaultKinds=S([1, 2]), NewOps=S([32000, 24000]),
              ReadOps=S([0, 1, 3 * m] if not gm else [0, 3 * m, 9 * m + 1]), MaxOps=5 if quick else 6, Window=99, LeavesOnly="TRUE")
     # definitions pinned by known answers / definitional consistency
     for kat in ("KAT_HMAC", "KAT_Drbg"):
-        if os.path.exists(os.path.join(ctx.specdir, kat + ".tla")):
-            jobs.append(dict(module=kat, name=kat, constants={}, init_next=("Init", "Next"), workers=1, timeout=1800, heap="2g"))
+        jobs.append(dict(prio=5, module=kat, name=kat, constants={}, init_next=("Init", "Next"), workers=1, timeout=1800, heap="2g"))
 
-    # the expensive instances first
-    order = {"reach": 0, "cover": 1, "prngf": 2, "sizes": 3, "prngs": 4}
-    jobs.sort(key=lambda j: min([v for k, v in order.items() if ("_" + k + "_") in j["name"] or ("C17" + k + "_") in j["name"]] or [9]))
-    import time
+    jobs.sort(key=lambda j: j.pop("prio"))           # the expensive instances first
     t0 = time.time()
     ctx.tlc_many(jobs, parallel=7 if quick else 5)
     ph = ctx.extra.setdefault("phases_s", {})
@@ -191,12 +199,13 @@ def run(ctx):
          cfgs.c("scalar", "cpu.aes=off,cpu.avx2=off,cpu.avx=off,cpu.ssse3=off"), cfgs.c("purego", tags=cfgs.PUREGO)]
     for c in K:
         ctx.build("replay", tuple(c["tags"]))
-    # all replays side by side; the sleeping scenarios (6.5 s each) get one process per scenario; the envelope-only
-    # traces do not depend on the dispatch tier (no bytes compared): first and last configuration only
+
     def lab(c, tag):            # ctx.replay names its result files by label: concurrent replays need distinct labels
         d = dict(c)
         d["label"] = "%s [%s]" % (c["label"], tag)
         return d
+    # all replays side by side; the sleeping scenarios (6.5 s each) get one process per scenario; the envelope-only
+    # traces do not depend on the dispatch tier (no bytes compared): first and last configuration only
     with concurrent.futures.ThreadPoolExecutor(max_workers=core.NCPU) as ex:
         futs = [ex.submit(ctx.replay, f, lab(K[0], os.path.basename(f)[4:-7]), 30) for f in files["tick"]]
         futs += [ex.submit(ctx.replay, exact, c) for c in K]
@@ -208,8 +217,9 @@ def run(ctx):
     t0 = time.time()
     ctx.binding_guard(exact, K[0])
     ctx.binding_guard(prngf, lab(K[0], "prng"))
-    # code -> spec
+    # code -> spec: recorded random histories on real objects (all ten exact combinations), validated against DrbgObj
     nrec = 24 if quick else 200
+
     def rv(c):
         ev = ctx.record("drbg", nrec, tags=c["tags"], env=c["env"], name="drbg-" + c["label"])
         ctx.validate("Trace_Drbg", ev, "drbg", shards=5 if quick else 8, label=c["label"], guard=(c is K[0]), timeout=3000,
@@ -223,14 +233,15 @@ def run(ctx):
 
     def key(t):
         c = t["steps"][0]
-        return (t["fam"], c["mech"], c["gm"], c["exact"]) + tuple(
+        return (t["fam"], c["mech"], c["gm"], c["exact"], tuple(c["algs"]) if c["exact"] else None) + tuple(
             (s["op"], s.get("n") if s["op"] in ("gen", "read") else len(s.get("e", "")) // 2, len(s.get("addl", s.get("p", ""))) // 2, s.get("res"),
              tuple((x["kind"], x["want"]) for x in s.get("src", [])))
             for s in t["steps"][1:])
     for f in (exact, env, prngf):
         ctx.count_distinct(f, key)
     ctx.assumptions += [
-        "exact output bytes for the SM3, HMAC-SM3 and SM4 instantiations; for SHA-256/SHA-512/AES-128/192/256 (the same generic Go code) only the envelope replies (refusal, error, NeedReseed, MaxBytesPerRequest, buffers untouched) are compared",
+        "exact output bytes for the SM3, HMAC-SM3, SM4 (NIST and GM/T 0105 modes) and SHA-256, HMAC-SHA-256, AES-128/192/256 (NIST mode) instantiations; for SHA-512 (seedlen 888) only the envelope replies (refusal, error, NeedReseed, MaxBytesPerRequest, buffers untouched) are compared",
+        "the DRBG operators of spec/algo/Drbg.tla are pinned by NIST CAVP vectors with SHA-256/AES (selftest/KAT_Drbg, vectors as replayed by the repository's own tests); no SM3/SM4 DRBG vectors are published - the same operators run with the KAT-pinned SM3/SM4/HMAC definitions",
         "GM/T 0105-2021 is not available offline: its differences from SP 800-90A (reseed ordering 0x01||entropy||V||additional, one output block per request, time-based reseed, 32/16-byte entropy/nonce minimum) are taken from the package's documentation; no GM/T HMAC generator exists (gm=true there = SP 800-90A HMAC_DRBG + time rule + reseed entropy >= 32, instantiate minimum not pinned)",
         "NIST mode: the API receives entropy_input from the caller, so min_length = security_strength (SP 800-90A 9.1) is not enforceable there; only empty entropy/nonce is 'below minimum' (as the package documents)",
         "HMAC generator: requests above MaxBytesPerRequest()=2048 are served with the bytes SP 800-90A defines (limit 2^19 bits); modelled as the code does (DrbgObj!HmacMaxReq)",
@@ -239,13 +250,12 @@ def run(ctx):
         "entropy/nonce/personalisation/additional-input contents are pseudo-random; lengths, op sequences, fault positions are enumerated; lengths near MAX_BYTES (2^27) are not explored",
         "reader wrapper: requested strength <= 32 bytes; a source that returns fewer bytes than asked for, zero bytes, or an error is a failure (single read per request, as SP 800-90A Get_entropy_input)",
     ]
-    return ctx.finish(rule="exact: one case per TLC transition of the (reseed_counter, gate, last-k-ops) cover / sizes / lens / reach instances; envelope: one case per maximal op sequence (all sequences to the stated depth); prng: per transition under every fault script; each replayed under 4 dispatch configurations, 2 constructor/nil-vs-empty passes and every listed primitive; distinct = distinct (mechanism, mode, fault, op/length/reply sequence)",
+    return ctx.finish(rule="exact: one case per TLC transition of the (reseed_counter, gate, last-k-ops) cover / sizes / lens / reach instances; envelope: one case per maximal op sequence (all sequences to the stated depth); prng: per transition under every fault choice; each replayed under 4 dispatch configurations (envelope: 2), 2 constructor/nil-vs-empty passes and every listed primitive; distinct = distinct (mechanism, mode, primitive, op/length/reply/source-read sequence)",
                       exhaustive=False)
 
 
 def _set_passes(path, n):
     """tick scenarios sleep: run them once per process instead of once per constructor pass"""
-    import json
     out = []
     for line in core._lines(path):
         t = json.loads(line)
